@@ -185,6 +185,12 @@ W.append(('P49', "C15", {'style': 'numpydoc', 'text': 'hw1\n\nParameters\n------
 W.append(('P20', "C15", {'style': 'rest', 'text': 'hw1\n\n:param a: pda\n:type a: ```int```\n\nNotes:\n  \nfw0 fw0\n', 'indent': 0, 'header_lines': ['hw1'], 'params': [{'name': 'a', 'typ': 'int', 'default': None, 'doc': 'pda'}], 'rtyp': None, 'footer': True, 'footer_lines': ['Notes:', '  ', 'fw0 fw0'], 'section': ':param a: pda\n:type a: ```int```', 'lead_nl': False}))
 W.append(('P25', "C15", {'style': 'numpydoc', 'text': '\n    hw1\n\n    Parameters\n    ----------\n    a : int\n        pda\n', 'indent': 4, 'header_lines': ['hw1'], 'params': [{'name': 'a', 'typ': 'int', 'default': None, 'doc': 'pda'}], 'rtyp': None, 'footer': False, 'footer_lines': [], 'section': 'Parameters\n----------\na : int\n    pda', 'lead_nl': True}))
 
+# ---- C14 witnesses
+W.append(("P30", "C14", {"kind": "text", "text": ":param "}))
+W.append(("P30", "C14", {"kind": "text", "text": ":type int"}))
+W.append(("P35", "C14", {"kind": "function", "src": "def b(b=None, *args):\n    return b\n", "feat": []}))
+W.append(("P29", "C14", {"kind": "emitted", "fmt": "sqlalchemy", "ir": I([["a", {"typ": "int", "doc": "the a"}]]), "style": "rest"}))
+
 
 def main():
     for fid, prop, case in W:
